@@ -668,6 +668,24 @@ func runRouterCase(line string) (out string) {
 				}
 				s = fmt.Sprintf("%c:%s listens=%s cs=%s", op, okS(err), strings.Join(ls, ","), hx([]byte(cfg.CacheSize)))
 			}
+		case 'e':
+			if fw == "synology" {
+				const info = "/etc/dhcpd/dhcpd.info"
+				b, _ := os.ReadFile(info)
+				nc := "enable=\"yes\"\nif=\"lbr0\"\n"
+				if bytes.HasPrefix(b, []byte("enable=\"yes\"")) {
+					nc = "enable=\"no\"\n"
+				}
+				_ = os.MkdirAll("/etc/dhcpd", 0755)
+				_ = os.WriteFile(info, []byte(nc), 0644)
+				// SRM applies its own change: the running dnsmasq sees the files as they are now
+				if _, err := os.Stat(nvDir + "/view"); err == nil {
+					_ = os.WriteFile(nvDir+"/view", []byte("S "+canonSnap()), 0644)
+				}
+				s = "e:ok"
+			} else {
+				s = "e:-"
+			}
 		case 'R':
 			if r == nil {
 				s = "R:-"
@@ -981,8 +999,15 @@ func genRouterCase(r *Rng, c *Ctx) string {
 			ops += string("NCSRCSR"[r.Intn(7)])
 		}
 	}
+	if r.Chance(6) {
+		// the environment changes under the running daemon (between the start and the stop): SRM's DHCP server is toggled
+		fw = "synology"
+		ops = pickS(r, "NCSeR", "NCSeR", "NCSeRNCSR", "NCSeeR", "NCeSR")
+	}
 	c.Stat("fw:" + fw)
 	switch {
+	case strings.Contains(ops, "e"):
+		c.Stat("ops:environment-change")
 	case ops == "NCSR", ops == "NCSNCSR", ops == "NCSRNCSR", ops == "D":
 		c.Stat("ops:" + ops)
 	case strings.ContainsAny(ops, "xyvw"):
